@@ -17,7 +17,7 @@ PROFILES = {
             (3, _p(world="sim", kinds=MF_SIM, p_latency=0.8, p_no_ckpt_script=0.4, p_no_maxres=0.6, fault_kinds=["crash"])),
             (2, _p(world="local", kinds=MF, p_latency=0.8, p_no_ckpt_script=0.4, p_noise=0.6, p_async_stop=0.0)), ],
     "C03": [(6, _p(world="mem", kinds=["hb_stopping", "hb_stopping", "hb_rush_stopping"], p_fault_free=0.6, p_ties=0.2,
-                   fault_kinds=["crash"], max_trials=25)), ],
+                   fault_kinds=["crash"], max_trials=25, p_repeat_level=0.2)), ],
     "C04": [(6, _p(world="mem", kinds=["hb_promotion", "hb_promotion", "hb_pasha", "hb_cost_promotion", "hb_rush_promotion"],
                    p_fault_free=0.6, p_not_honour=0.15, p_no_maxres=0.3, p_ties=0.15, fault_kinds=["crash"], p_nodelay_false=0.05)), ],
     "C05": [(6, _p(world="mem", kinds=["sync_hb", "sync_hb", "sync_hb_custom", "sync_hb_custom", "dehb"], p_fault_free=0.4, p_nan_metric_sync=0.25,
@@ -40,7 +40,9 @@ PROFILES = {
     "C12": [(6, _p(world="mem", kinds=MF, p_noreport=0.08, p_callback_raise=0.2, p_wait=0.4,
                    stop_fields=["max_num_trials_started", "max_num_trials_finished", "max_num_trials_completed",
                                 "max_num_evaluations", "max_wallclock_time", "max_metric_value", "min_metric_value", "max_cost"])),
-            (2, _p(world="sim", kinds=MF_SIM, fault_kinds=["crash"], p_wait=0.4, p_callback_raise=0.1)),
+            (2, _p(world="sim", kinds=MF_SIM, fault_kinds=["crash"], p_wait=0.4, p_callback_raise=0.1,
+                   stop_fields=["max_num_trials_started", "max_num_trials_finished", "max_num_trials_completed",
+                                "max_num_evaluations", "max_wallclock_time", "max_wallclock_time", "max_metric_value", "min_metric_value"])),
             (2, _p(world="local", kinds=MF, p_noreport=0.08, p_callback_raise=0.2, p_wait=0.4, p_async_stop=0.0)), ],
     "C13": [(6, _p(world="mem", kinds=MF, p_fault_free=0.0, p_latency=0.5)),
             (2, _p(world="sim", kinds=MF_SIM, p_fault_free=0.0, fault_kinds=["crash"])),
